@@ -1193,7 +1193,7 @@ func rangeIter(fr *frame, x value) iter {
 // cases we have to consider.
 func widen(x value) value {
 	switch y := x.(type) {
-	case bool, int64, uint64, float64, complex128, string, unsafe.Pointer:
+	case bool, int64, uint64, float64, complex128, string, unsafe.Pointer, unsafePtr:
 		return x
 	case int:
 		return int64(y)
@@ -1263,7 +1263,7 @@ func conv(fr *frame, t_dst, t_src types.Type, x value) value {
 		case *types.Basic:
 			// *value to unsafe.Pointer?
 			if ut_dst.Kind() == types.UnsafePointer {
-				return unsafe.Pointer(x.(*value))
+				return unsafePtr{p: x.(*value), t: ut_src.Elem()}
 			}
 		}
 
@@ -1335,6 +1335,16 @@ func conv(fr *frame, t_dst, t_src types.Type, x value) value {
 			// To at least preserve type-safety, we'll
 			// just return the zero value of the
 			// destination type.
+			if up, ok := x.(unsafePtr); ok {
+				if pt, ok := ut_dst.(*types.Pointer); ok {
+					if at, ok := pt.Elem().Underlying().(*types.Array); ok {
+						if b, ok := at.Elem().Underlying().(*types.Basic); ok && b.Kind() == types.Uint8 && at.Len() == stdSizes.Sizeof(up.t) {
+							return byteView{p: up.p, t: up.t}
+						}
+					}
+				}
+				panic(pathEnd{StUnsupported, "unsafe.Pointer conversion to " + t_dst.String()})
+			}
 			return zero(t_dst)
 		}
 
